@@ -520,10 +520,10 @@ class Shape:
                 o = orig(vals[0])
                 for v in vals[1:]:
                     o = common(o, orig(v)) if o == orig(v) or "G" in (o, orig(v)) else None
-                return opaque(ws[0], "join", o)
-            return opaque(("bits", self.key("join")), "join")
+                return opaque(ws[0], self.key("join"), o)
+            return opaque(("bits", self.key("join")), self.key("join"))
         if any(is_il(v) for v in vals):
-            return opaque(("bits", self.key("join")), "join")
+            return opaque(("bits", self.key("join")), self.key("join"))
         if all(isinstance(v, tuple) and v[0] == "int" for v in vals):
             return I(("sym", self.key("join")))
         if all(isinstance(v, tuple) and v[0] == "reg" for v in vals):
@@ -764,6 +764,12 @@ class Shape:
                 return ("err",)
             if name == "Included" or name == "Excluded":
                 return args[0]
+            if d.startswith("il::expression::Expression::"):
+                if name in ("Scalar", "Constant") and args:
+                    return to_expr(args[0])
+                low = name.lower()
+                if low in BINOPS or low in CMPOPS or low in ("zext", "sext", "trun", "ite"):
+                    return self.expr_ctor(low, args, n)
             return ("obj", "ctor:" + name)
         return self.call(d, args, n, body)
 
@@ -794,7 +800,9 @@ class Shape:
             if w is None:
                 w = ("bits", self.key("w"))
             if d == "il::expr_const":
-                return E(w, ("const", val if isinstance(val, int) else None), orig(args[1]))
+                if isinstance(val, int):
+                    return E(w, ("const", val), orig(args[1]))
+                return E(w, ("const", None, self.key("c")), orig(args[1]))
             return ("k", w, val if isinstance(val, int) else None, orig(args[1]))
         if d in ("il::scalar", "il::scalar::Scalar::new", "il::expr_scalar"):
             nm = args[0][1] if isinstance(args[0], tuple) and args[0][0] == "str" else None
@@ -848,9 +856,12 @@ class Shape:
             return ("str", None)
         if d.endswith("Vec::<T>::new") or d.endswith("::default") and "Vec" in d:
             return ("list", [])
-        if name == "push" and args and isinstance(args[0], tuple) and args[0][0] == "list":
-            args[0][1].append(args[1])
-            if len(args) > 1:
+        if name == "push" and len(args) > 1:
+            if isinstance(args[0], tuple) and args[0][0] == "list":
+                args[0][1].append(args[1])
+            rt = n.get("recv", {}).get("ta", n.get("recv", {}).get("t")) if isinstance(n.get("recv"), dict) else None
+            rty = body["types"][rt] if rt is not None else ""
+            if "(u64, std::option::Option<il::expression::Expression>)" in rty:
                 self.note_successor(args, n)
             return ("unit",)
         if name == "len" and args and isinstance(args[0], tuple) and args[0][0] == "list":
@@ -877,7 +888,7 @@ class Shape:
 
     def by_type(self, ty):
         if "il::expression::Expression" in ty:
-            return opaque(("bits", self.key("ret")), "call")
+            return opaque(("bits", self.key("ret")), self.key("call"))
         if "il::scalar::Scalar" in ty and "Vec" not in ty:
             return ("sc", None, ("bits", self.key("ret")))
         if ty in ("usize", "u64", "u32", "i64", "u8", "u16", "isize", "i32"):
@@ -917,7 +928,7 @@ class Shape:
             if not isinstance(v, tuple) or v[0] in ("unk", "never", "err", "obj", "unit"):
                 out = cb.get("output", "")
                 if "il::expression::Expression" in out and "Vec" not in out and "(" not in out:
-                    v = opaque(("bits", self.key("ret")), "call")
+                    v = opaque(("bits", self.key("ret")), self.key("call"))
                 elif "il::scalar::Scalar" in out and "Vec" not in out and "(" not in out:
                     v = ("sc", None, ("bits", self.key("ret")), None)
             return v
